@@ -1,5 +1,6 @@
 import AasVerif.Lemmas.RulesStages
 import AasVerif.Lemmas.RulesAncestors
+import AasVerif.Lemmas.RulesOrder
 /-!
 # C06 — Accepted meta-models satisfy the structural rules
 
@@ -242,5 +243,45 @@ theorem reserved_prefixes :
 theorem tables_lower_case :
     (∀ n ∈ Gen.Rules.reservedTypeNames, lower n = n) ∧ (∀ n ∈ Gen.Rules.reservedMemberNames, lower n = n) := by
   decide +kernel
+
+/-! ### The order of the members of a class does not matter (stage 6 over the members in source order)
+
+`parse.Class.methods` lists the functions of a class body in source order, `__init__` included; the abstract `Cls` keeps the
+constructor apart.  `Model/RulesOrder.lean` models the dictionaries of `map_symbol_table_to_ontology` for an arbitrary place
+`initAt` of `__init__` among the functions of every class. -/
+
+/-- **The dictionary of observed methods does not depend on the member order**: a name other than `__init__` is a key of
+`observed_methods` iff some ancestor declares a method of that name — for every place of `__init__` in every ancestor
+(before / after the method, first / last member). -/
+theorem observed_methods_order_free (initAt : Text → Nat) (ancs : List Cls) (n : Text) (hn : n ≠ initName) :
+    n ∈ (observedMethods initAt [] ancs).map (·.1) ↔ ∃ a ∈ ancs, n ∈ a.methods := by
+  rw [observed_iff_declared initAt ancs n hn, List.mem_flatMap]
+
+/-- **Stage 6 over the members in source order reports the errors of `stage6`**, wherever `__init__` stands in every class
+(hypothesis: no property or method is itself named `__init__`; `extract` never produces one). Together with
+`check_sound_complete` / `accepted_no_redeclaration`: an inherited member declared again is rejected for every member order. -/
+theorem stage6_source_order_free (initAt : Text → Nat) (m : MM)
+    (h : ∀ c ∈ m.classes, initName ∉ c.propNames ∧ initName ∉ c.methods) :
+    stage6Source initAt m = stage6 m :=
+  stage6Source_eq initAt m h
+
+/-- `Parent {x: int; __init__; do_something()}` and `Child(Parent) {do_something: int; __init__}`: the inherited method is
+declared again as a property. -/
+def redeclaredAfterInit : MM := {
+  enums := [],
+  classes := [⟨[80], [], [⟨[120], .prim [105, 110, 116]⟩], [[100, 111]], [], some [⟨[120], .prim [105, 110, 116], .absent⟩]⟩,
+              ⟨[67], [[80]], [⟨[100, 111], .prim [105, 110, 116]⟩], [], [],
+                some [⟨[120], .prim [105, 110, 116], .absent⟩, ⟨[100, 111], .prim [105, 110, 116], .absent⟩]⟩],
+  consts := [], fns := [], docs := [] }
+
+/-- … rejected wherever `__init__` is written in `Parent` and in `Child` (in particular BEFORE the method, `initAt = 0`);
+also non-vacuity of the hypothesis of `stage6_source_order_free`. -/
+theorem redeclared_after_init_rejected (initAt : Text → Nat) :
+    stage6Source initAt redeclaredAfterInit = [.redeclaredProperty] := by
+  rw [stage6_source_order_free initAt redeclaredAfterInit (by decide)]
+  decide
+
+/-- the source-order loop itself on the same model, `__init__` before the method: the method after `__init__` is observed -/
+example : (observedMethods (fun _ => 0) [] redeclaredAfterInit.classes).map (·.1) = [initName, [100, 111]] := by decide
 
 end AasVerif.Props.C06
